@@ -69,7 +69,15 @@ def gen_producer(rnd: random.Random, zc: ZoneCtx, ref: int, depth: int, *, filte
     sub = lambda: gen_producer(rnd, zc, ref, depth - 1, filters=filters, ops=ops, base_kinds=base_kinds)  # noqa: E731
     f = maybe_filter(rnd, filters * 0.6)
     if k == 'group':
-        return ('group', f, [sub() for _ in range(rnd.randint(1, 3))])
+        members = [sub() for _ in range(rnd.randint(1, 3))]
+        if rnd.random() < 0.3:
+            i = rnd.randrange(len(members))
+            tw = twin_of(rnd, members[i], sub, filters)
+            if members[i][0] in ('time', 'interval') and members[i][-1] is None and rnd.random() < 0.8:
+                # an unfiltered member contains its filtered twin: give both a filter, so that each contributes
+                members[i] = twin_of(rnd, tw, sub, filters)
+            members.insert(rnd.randint(0, len(members)), tw)
+        return ('group', f, members)
     if k == 'offset':
         off = rnd.choice([-1, 1]) * rnd.choice([NS_S, 10 * NS_MIN, 90 * NS_MIN, 5 * NS_HOUR, 30 * NS_HOUR, 1, 1234 * NS_US])
         return ('offset', make_exact(off), f, sub())
@@ -78,6 +86,33 @@ def gen_producer(rnd: random.Random, zc: ZoneCtx, ref: int, depth: int, *, filte
     lo = rnd.choice([0, 0, 10 * NS_S, -10 * NS_MIN, -NS_S, -3 * NS_HOUR])
     hi = lo + rnd.choice([NS_S, 10 * NS_MIN, 20 * NS_MIN, 2 * NS_HOUR])
     return ('jitter', make_exact(lo), make_exact(hi), f, sub())
+
+
+def twin_of(rnd: random.Random, p, sub, filters: float):
+    """a second member of the same kind with the same own parameters that differs only in the part every trigger
+    class shares (its filter, the trigger it wraps): two different triggers that must both contribute to a group"""
+    def other_filter(f):
+        for _ in range(20):
+            g = maybe_filter(rnd, 0.9)
+            if g != f:
+                return g
+        return None
+    k = p[0]
+    if k == 'time':
+        g = other_filter(p[4])
+        if g is not None and g[0] == 'time' and rnd.random() < 0.85:      # as in gen_base: keep the twin satisfiable
+            lo, hi = g[1], g[2]
+            if (lo is not None and p[1] < lo) or (hi is not None and p[1] >= hi):
+                g = ('time', None if lo is None else min(lo, p[1]), None if hi is None else max(hi, p[1] + 1))
+        return ('time', p[1], p[2], p[3], g)
+    if k == 'interval':
+        return ('interval', p[1], p[2], other_filter(p[3]))
+    if k == 'group':
+        return ('group', other_filter(p[1]), list(p[2]))
+    # offset / earliest / latest / jitter: same amount or bound, another wrapped trigger (and sometimes another filter)
+    inner = sub()
+    head = list(p[:-2])
+    return (*head, p[-2] if rnd.random() < 0.5 else other_filter(p[-2]), inner)
 
 
 def pick_zone(rnd: random.Random, tier: str) -> ZoneCtx:
